@@ -171,7 +171,21 @@ func channelReceive(L *LState) int {
 func channelSend(L *LState) int {
 	rch := checkChannel(L, 1)
 	v := checkGoroutineSafe(L, 2)
-	rch.Send(reflect.ValueOf(v))
+	if L.ctx != nil {
+		// like receive: a send that blocks must return when the context is done
+		cases := []reflect.SelectCase{{
+			Dir:  reflect.SelectRecv,
+			Chan: reflect.ValueOf(L.ctx.Done()),
+			Send: reflect.ValueOf(nil),
+		}, {
+			Dir:  reflect.SelectSend,
+			Chan: rch,
+			Send: reflect.ValueOf(v),
+		}}
+		reflect.Select(cases)
+	} else {
+		rch.Send(reflect.ValueOf(v))
+	}
 	return 0
 }
 
